@@ -1,6 +1,8 @@
 //! Prop wrappers for properties that have a client part and a server part.
 
 use super::cgen::CScenario;
+use super::sgen::{scenario_strategy as sstrat, SScenario};
+use super::sprops;
 use crate::sim::runner::{CaseResult, Prop, Tier, Work};
 use proptest::prelude::*;
 use serde::{Deserialize, Serialize};
@@ -8,6 +10,7 @@ use serde::{Deserialize, Serialize};
 #[derive(Clone, Debug, Serialize, Deserialize)]
 pub enum Sc09 {
     Client { sc: CScenario, shutdown: bool },
+    Server(SScenario),
 }
 pub struct C09;
 impl Prop for C09 {
@@ -19,7 +22,9 @@ impl Prop for C09 {
         "Client: config + up to 70 generated ops with faults armed on the k-th (k<12) call of each of poll_ready/start_send/poll_flush/poll_close/poll_next, end-of-stream at generated points, calls in every stage \
          (blocked on the buffer, queued, in flight, replied-but-unread) and a fresh call after the failure. Oracle: dispatch result names the failed activity (Write only for a failed cancel write); no transport use after a terminal failure; \
          a failed request write yields Send for exactly that call; every call outstanding at the failure resolves by the next quiescence with Channel(same activity) or Shutdown unless its reply was handed over / deadline passed; \
-         success only with a matching reply; later calls fail at the next quiescence; no panic. Non-trivial = a terminal fault fired with calls in >=2 different stages; distinct = distinct scenario JSON."
+         success only with a matching reply; later calls fail at the next quiescence; no panic. \
+         Server: BaseChannel (with/without request limit, both paths) with the same fault injection; oracle: the request stream yields an error naming the failed activity (execute(): the stream ends), no transport use afterwards, \
+         after the channel is dropped every unfinished handler is aborted and never polled again, no panic. Non-trivial = a terminal fault fired with calls in >=2 different stages; distinct = distinct scenario JSON."
             .into()
     }
     fn work(&self, tier: Tier) -> Work {
@@ -29,13 +34,17 @@ impl Prop for C09 {
         }
     }
     fn strategy(&self, _tier: Tier) -> BoxedStrategy<Sc09> {
-        (super::c09::strategy_client(), proptest::bool::weighted(0.3))
-            .prop_map(|(sc, shutdown)| Sc09::Client { sc, shutdown })
-            .boxed()
+        prop_oneof![
+            3 => (super::c09::strategy_client(), proptest::bool::weighted(0.3))
+                .prop_map(|(sc, shutdown)| Sc09::Client { sc, shutdown }),
+            2 => sstrat(&sprops::c09s_profile()).prop_map(Sc09::Server),
+        ]
+        .boxed()
     }
     fn run_case(&self, sc: &Sc09) -> CaseResult {
         match sc {
             Sc09::Client { sc, shutdown } => super::c09::check_client(sc, *shutdown),
+            Sc09::Server(sc) => sprops::c09s_check(sc),
         }
     }
 }
@@ -43,6 +52,7 @@ impl Prop for C09 {
 #[derive(Clone, Debug, Serialize, Deserialize)]
 pub enum Sc10 {
     Client(CScenario),
+    Server(SScenario),
 }
 pub struct C10;
 impl Prop for C10 {
@@ -53,7 +63,9 @@ impl Prop for C10 {
     fn rule(&self) -> String {
         "Client: config + up to 60 generated ops (calls, abandonments with yields inside the drop, handle clones/drops, write budget blocked, poll_close pending n times, peer close) followed by: abandon all, drop all handles, one dispatch step, make writable, drain. \
          Oracle: dispatch returns Ok(()); on the handle-drop path poll_close is called and completes, every cancellation owed (abandoned, on the wire, not excused by response/deadline/write failure) is written before the first poll_close, nothing is written after it; \
-         on the peer-close path the dispatch has ended by the next quiescence and no call is left pending. Non-trivial = shutdown began with queued cancellations, or peer close with outstanding calls; distinct = distinct scenario JSON."
+         on the peer-close path the dispatch has ended by the next quiescence and no call is left pending. \
+         Server: inbound end-of-stream at a generated point with requests in flight, handlers completing in any order, cancels/expiries/handler drops, sink blocked for stretches; oracle: the request stream does not end while the model has an in-flight request, \
+         no response is written after it ended, every handler that completed in time was answered, and the stream ends at the first quiescence with inbound closed, nothing in flight and everything flushed. Non-trivial = shutdown began with queued cancellations, or peer close with outstanding calls; distinct = distinct scenario JSON."
             .into()
     }
     fn work(&self, tier: Tier) -> Work {
@@ -63,11 +75,16 @@ impl Prop for C10 {
         }
     }
     fn strategy(&self, _tier: Tier) -> BoxedStrategy<Sc10> {
-        super::c10::strategy_client().prop_map(Sc10::Client).boxed()
+        prop_oneof![
+            super::c10::strategy_client().prop_map(Sc10::Client),
+            sstrat(&sprops::c10s_profile()).prop_map(Sc10::Server),
+        ]
+        .boxed()
     }
     fn run_case(&self, sc: &Sc10) -> CaseResult {
         match sc {
             Sc10::Client(c) => super::c10::check_client(c),
+            Sc10::Server(sc) => sprops::c10s_check(sc),
         }
     }
 }
@@ -75,6 +92,7 @@ impl Prop for C10 {
 #[derive(Clone, Debug, Serialize, Deserialize)]
 pub enum Sc11 {
     Client { sc: CScenario, send_fault: Option<u8> },
+    Server { sc: SScenario, drop_channel: bool },
 }
 pub struct C11;
 impl Prop for C11 {
@@ -85,7 +103,9 @@ impl Prop for C11 {
     fn rule(&self) -> String {
         "Client: config (max_in_flight 1-4 so slots are reused) + up to 300 generated ops using every removal route (reply, abandonment+cancel, expiry, request write failure on the k-th start_send), then with the clock stopped: answer everything, abandon the rest, drain, drop handles, drain. \
          Oracle: at each request write fewer than max_in_flight earlier requests are certainly still in flight (wire model); at every quiescence hook H2 reports entries == timers and lower <= entries <= upper of the wire model; \
-         once all calls ended the client tracks 0 requests and 0 timers without advancing time and the dispatch completes as soon as the handles are dropped. Non-trivial = >=3 removal routes and >= 2*max_in_flight requests transmitted; distinct = distinct scenario JSON."
+         once all calls ended the client tracks 0 requests and 0 timers without advancing time and the dispatch completes as soon as the handles are dropped. \
+         Server (no limiter, raw Requests path): up to 250 ops ending requests by response, cancel, expiry, handler dropped midway, request never executed, channel dropped; oracle: in_flight_requests() within the model's [lower, upper] and timers == entries at every quiescence; \
+         after every yielded request has ended, 0 entries and 0 timers with the clock stopped, and closing the inbound side ends the stream immediately. Non-trivial = >=3 removal routes and >= 2*max_in_flight requests transmitted; distinct = distinct scenario JSON."
             .into()
     }
     fn work(&self, tier: Tier) -> Work {
@@ -95,13 +115,94 @@ impl Prop for C11 {
         }
     }
     fn strategy(&self, _tier: Tier) -> BoxedStrategy<Sc11> {
-        (super::c11::strategy_client(), proptest::option::weighted(0.3, 0u8..40))
-            .prop_map(|(sc, send_fault)| Sc11::Client { sc, send_fault })
-            .boxed()
+        prop_oneof![
+            (super::c11::strategy_client(), proptest::option::weighted(0.3, 0u8..40))
+                .prop_map(|(sc, send_fault)| Sc11::Client { sc, send_fault }),
+            (sstrat(&sprops::c11s_profile()), proptest::bool::weighted(0.2))
+                .prop_map(|(sc, drop_channel)| Sc11::Server { sc, drop_channel }),
+        ]
+        .boxed()
     }
     fn run_case(&self, sc: &Sc11) -> CaseResult {
         match sc {
             Sc11::Client { sc, send_fault } => super::c11::check_client(sc, *send_fault),
+            Sc11::Server { sc, drop_channel } => sprops::c11s_check(sc, *drop_channel),
+        }
+    }
+}
+
+macro_rules! server_prop {
+    ($name:ident, $id:expr, $prof:path, $check:path, $quick:expr, $thorough:expr, $rule:expr) => {
+        pub struct $name;
+        impl Prop for $name {
+            type Scenario = SScenario;
+            fn id(&self) -> &'static str {
+                $id
+            }
+            fn rule(&self) -> String {
+                $rule.into()
+            }
+            fn work(&self, tier: Tier) -> Work {
+                match tier {
+                    Tier::Quick => Work { cases_per_worker: $quick, workers: 8 },
+                    Tier::Thorough => Work { cases_per_worker: $thorough, workers: 16 },
+                }
+            }
+            fn strategy(&self, _tier: Tier) -> BoxedStrategy<SScenario> {
+                sstrat(&$prof())
+            }
+            fn run_case(&self, sc: &SScenario) -> CaseResult {
+                $check(sc)
+            }
+        }
+    };
+}
+
+server_prop!(C08, "C08", sprops::c08_profile, sprops::c08_check, 2000, 30_000,
+    "Scenario = server channel config (no limiter; raw Requests path or execute() adaptor; response buffer 1-4; transport cap 1-3, both readiness models) + up to 70 generated ops: requests with fresh small ids, fresh 64-bit ids, \
+     ids duplicating an in-flight request, ids reused after their response was written; cancels (incl. unknown ids), handler completions in generated order, handlers dropped, sink blocked, peer close, channel drop. \
+     Oracle: reference model of read-and-unanswered ids: each non-duplicate request read is offered exactly once, in arrival order; duplicates-in-flight are ignored; every Response written bears an id that is read-and-unanswered at that moment (so at most one per request, none after cancel/expiry), \
+     only after its handler completed and with that handler's result. Non-trivial = a duplicate-in-flight and an id reuse both occurred and >=2 handlers completed out of order; distinct = distinct scenario JSON.");
+
+server_prop!(C06, "C06", sprops::c06_profile, sprops::c06_check, 2000, 30_000,
+    "Scenario = server channel config (limit none/1/2/4, both paths, both readiness models) + up to 70 generated ops under virtual time: 1-6 concurrent requests with deadlines already expired, 0, us..minutes, days..2.1y; \
+     clock steps landing on deadline-1ms/deadline/+1ms/+2ms; handlers completed before/at/after their deadline; sink blocked for stretches (finding F6 region steered around and counted). \
+     Oracle: no handler is dropped unfinished before its deadline without a cancel/application drop/channel drop; at the first quiescence >= max(D, read time)+2ms the handler is gone and never polled again; nothing is written for an expired request; \
+     a handler that completed before D is answered at the next writable quiescence before D. Non-trivial = one request expired while another with a different deadline was answered later, or a completion within 1 ms of its deadline; distinct = distinct scenario JSON.");
+
+server_prop!(C12, "C12", sprops::c12_profile, sprops::c12_check, 2000, 30_000,
+    "Scenario = server channel behind max_concurrent_requests(L), L in {0,1,2,3,5}, + up to 70 generated ops: bursts larger than L, cancels, a Cancel immediately followed by a fresh request before one poll, completions and response writes in any order, sink blocked for stretches, duplicates-in-flight. \
+     Oracle: reference model of the in-flight set kept as [lower, upper] (expiry within 2 ms of a read is the only uncertainty): a request is handed to the application only if lower < L when it was read; it is refused only if upper >= L at that moment; \
+     a refusal is exactly one Response with kind WouldBlock and the documented text and no handler; every read request gets one of the two. Non-trivial = a throttled and an admitted request both occurred after the count had reached L and dropped again; distinct = distinct scenario JSON.");
+
+#[derive(Clone, Debug, Serialize, Deserialize)]
+pub enum Sc04 {
+    Server(SScenario),
+}
+pub struct C04;
+impl Prop for C04 {
+    type Scenario = Sc04;
+    fn id(&self) -> &'static str {
+        "C04"
+    }
+    fn rule(&self) -> String {
+        "Single channel: server config (limit none/1/2/3, both paths) + up to 70 generated ops with cancels placed before handler start, mid-handler, after completion but before the response is written, after it is written, for unknown and finished ids; several concurrent requests; sink blocked for stretches \
+         (finding F6 region steered around and counted). Oracle: after the poll in which the channel read Cancel(id) for a tracked id the handler's inner future is never polled or started again, it is observed dropped, no Response(id) is written (reference model of read-and-unanswered ids), \
+         in_flight_requests() agrees with the model at every quiescence, and no other handler is aborted without cause. Non-trivial = a cancel hit a handler that had been polled and not completed; distinct = distinct scenario JSON."
+            .into()
+    }
+    fn work(&self, tier: Tier) -> Work {
+        match tier {
+            Tier::Quick => Work { cases_per_worker: 2000, workers: 8 },
+            Tier::Thorough => Work { cases_per_worker: 30_000, workers: 16 },
+        }
+    }
+    fn strategy(&self, _tier: Tier) -> BoxedStrategy<Sc04> {
+        sstrat(&sprops::c04_profile()).prop_map(Sc04::Server).boxed()
+    }
+    fn run_case(&self, sc: &Sc04) -> CaseResult {
+        match sc {
+            Sc04::Server(s) => sprops::c04_check(s),
         }
     }
 }
